@@ -149,6 +149,47 @@ def run(ctx):
                 ctx.violation("from_native(v) rejects the same value",
                               {"kind": "input", "value": src, "w": gen.vsrc(w), "observed": "rejected",
                                "expected": "accepted"})
+        # the same conversion reached through substitution (members outside the matched window, untyped containers,
+        # schema.any): the result is the schema from_native(v) gives, member by member, in v's order
+        if isinstance(v, (list, dict)) and not nan:
+            from d42 import schema as _schema
+            routes = []
+            if isinstance(v, list):
+                routes.append(("schema.list % v", lambda: _schema.list % v))
+                if len(v) >= 2:
+                    routes += [("schema.list([from_native(v[0]), ...]) % v", lambda: _schema.list([from_native(v[0]), ...]) % v),
+                               ("schema.list([..., from_native(v[-1])]) % v", lambda: _schema.list([..., from_native(v[-1])]) % v)]
+                    j = r.randrange(len(v))
+                    # (not where v holds dicts: an earlier dict member may merely SUBSTITUTE into the searched one - it is a
+                    # partial dict for substitution - and take the window: C04's finding F25, nothing from_native does)
+                    if "{" not in gen.vsrc(v):
+                        routes.append(
+                            (f"schema.list([..., from_native(v[{j}]), ...]) % v", lambda: _schema.list([..., from_native(v[j]), ...]) % v))
+            else:
+                routes.append(("schema.dict % v", lambda: _schema.dict % v))
+                routes.append(("schema.dict({...: ...}) % v", None))
+            routes.append(("schema.any % v", lambda: (_schema.any % v).props.types[0]))
+            for rname, f in routes:
+                if f is None:
+                    continue
+                dist["substitution_routes"] = dist.get("substitution_routes", 0) + 1
+                try:
+                    got = f()
+                except Exception as e:  # noqa
+                    got = e
+                ok = not isinstance(got, Exception) and not validate(got, v).get_errors()
+                if ok:
+                    with tape.scripted(tape.Tape([5, 2, 9])):
+                        try:
+                            ok = _identical(fake(got), v)
+                        except Exception:  # noqa
+                            ok = False
+                if not ok:
+                    ctx.violation("members converted by from_native during substitution do not make up the substituted value",
+                                  {"kind": "input", "value": src, "route": rname,
+                                   "observed": common.srepr(got)[:300].replace("\n", " "),
+                                   "expected": "a schema that accepts v and generates exactly v (as from_native(v) does)"})
+                    break
         if len(samples) < 4 and isinstance(v, (list, dict)) and v:
             samples.append({"value": src, "schema": repr(s).replace("\n", " ")[:200],
                             "perturbations_tried": len(ws)})
